@@ -90,9 +90,20 @@ META = {
         "isinstance(X[k], <non-message classes>) in the same `and` (message nodes alone fail the class test as the empty list "
         "fails the guard). Class tests may be written through a shared one-argument class predicate (`lambda n: [not] isinstance(n, K)`, "
         "a helper defined that way, also in another module; as findall condition, filter() argument, comprehension condition or "
-        "inside all/any), and a pick by next(...) over a child list counts like a subscript."
+        "inside all/any), and a pick by next(...) over a child list counts like a subscript. "
+        "R9: elements that docutils / Sphinx read as text before system messages are filtered are handed on without message nodes. "
+        "Every `with <renderer>.current_node_context(X): render_children / nested_render_text` whose X is built as a title, caption, "
+        "rubric, term or field_name (tabled with the collector that reads each), a paragraph that becomes a field_body "
+        "(bibliographic front matter: docutils DocInfo, Sphinx MetadataCollector), or a container whose `.children` are returned "
+        "(the text nodes of state.inline_text) must be followed on EVERY path to the function's exit by a loop that removes the "
+        "system_message descendants found below X (findall/traverse of the subtree, not only direct children) - or every caller "
+        "does so on the returned container; and run_directive clears the captions AND titles below the nodes a directive returns. "
+        "Keys name the module and the kind of element, not the function, so that moving the code into a helper keeps the key."
     ),
     "not_decided": (
+        "which further element classes third-party collectors read as text (R9's table lists those docutils and Sphinx itself read: "
+        "title, caption, rubric, term, field_name, bibliographic field body, inline_text nodes); where the moved-out message nodes "
+        "are placed afterwards; "
         "consumers of rendered content outside the shapes of R8 (e.g. a third-party transform that reads astext() of a title, a "
         "Sphinx builder that counts children) and docutils' own transforms other than the DocTitle fact tabled in R8d; "
         "whether a catalogue member without any emission site (DIRECTIVE_BODY, listed by R3) should be documented at all; "
@@ -111,6 +122,7 @@ META = {
         "sphinx.domains.std.make_glossary_term names the term (id, std:term object, index entry) by the astext() of the nodes it is given (R8b)",
         "docutils.transforms.frontmatter.DocTitle promotes a section only if, leading PreBibliographic nodes (which include system_message) aside, it is the root's only child (R8d)",
         "no writer renders the rawsource of an inline node (R8a rawsource discharge); docutils uses a reference's rawsource for the problematic node of an unresolved reference",
+        "Sphinx's std domain (process_doc, get_numfig_title), TitleCollector / toctree and docutils' DocInfo read title, caption, rubric, term, field_name and bibliographic field bodies with astext()/clean_astext(), which keep system_message text, before FilterSystemMessages runs (R9 table)",
         "a suppress entry with a trailing dot ('type.') is outside the three documented forms (str.partition and split('.', 1) treat it differently)",
     ],
 }
@@ -3189,7 +3201,170 @@ def r8_messages_are_not_content(corpus: Corpus, rep: Report, tier: str):
         rep.ok(R, f"{fin.fq}|no message node on the document root", fin.site(), f"{len(after_body)} function(s) run after the body")
 
 
-RULES = [r1_typed_emission, r2_untyped_closed_list, r3_no_member_loses_last_site, r4_suppression_confined, r5_return_value_unused, r6_tag_format, r7_documented_catalogue, r8_messages_are_not_content]
+# -- R9: text elements that docutils / Sphinx read as text leave the renderer without message nodes --------------
+#
+# Inline renderers append a warning's system_message INSIDE the element being rendered.  docutils' and Sphinx's
+# collectors read some element classes as text (astext / Sphinx's clean_astext, which keeps system messages) BEFORE
+# system messages are filtered, so such an element must be handed on without them (rST places them after it).
+COLLECTOR_READ = {
+    "title": "docutils DocTitle (document['title']); Sphinx TitleCollector, toctree / toc entries, std labels of sections, tables, admonitions",
+    "caption": "Sphinx std domain: the label text of a figure / code block (get_numfig_title)",
+    "rubric": "Sphinx std domain process_doc: the label text of a labelled rubric",
+    "term": "Sphinx std domain process_doc: the label text of a labelled definition list; make_glossary_term",
+    "field_name": "Sphinx std domain process_doc: the label text of a labelled field list",
+}
+
+
+def _render_targets(fi: FunctionInfo) -> list[tuple[ast.With, str, ast.Call | None]]:
+    """``with <renderer>.current_node_context(X[, append=True]): ... render_children(...) / nested_render_text(...)``
+    -> (with statement, X, the constructor call X is bound to)."""
+    out = []
+    if fi.is_lambda:
+        return out
+    for w in fi.local_nodes():
+        if not isinstance(w, ast.With):
+            continue
+        for item in w.items:
+            c = item.context_expr
+            if not (isinstance(c, ast.Call) and isinstance(c.func, ast.Attribute) and c.func.attr == "current_node_context" and c.args and isinstance(c.args[0], ast.Name)):
+                continue
+            renders = [x for st in w.body for x in ast.walk(st) if isinstance(x, ast.Call) and isinstance(x.func, ast.Attribute) and x.func.attr in ("render_children", "nested_render_text", "_render_tokens")]
+            # only the innermost context counts for a render call
+            inner = [x for st in w.body for x in ast.walk(st) if isinstance(x, ast.With) and any(isinstance(i.context_expr, ast.Call) and isinstance(i.context_expr.func, ast.Attribute) and i.context_expr.func.attr == "current_node_context" for i in x.items)]
+            inner_calls = {id(y) for iw in inner for st in iw.body for y in ast.walk(st)}
+            if not [x for x in renders if id(x) not in inner_calls]:
+                continue
+            name = c.args[0].id
+            defs = [n for n in fi.local_nodes() if isinstance(n, ast.Assign) and len(n.targets) == 1 and _is_name(n.targets[0], name) and isinstance(n.value, ast.Call)]
+            ctor = None
+            for d in sorted(defs, key=lambda n: n.lineno):
+                if d.lineno <= w.lineno:
+                    ctor = d.value
+            out.append((w, name, ctor))
+    return out
+
+
+def _removal_loops(fi: FunctionInfo, root: str) -> list[ast.For]:
+    """Loops that take every system_message out of ``root``'s subtree (``for m in findall(root)(sm): m.parent.remove(m)``)."""
+    out = []
+
+    def yields(it: ast.expr, depth: int = 0) -> bool:
+        if depth > 3:
+            return False
+        if isinstance(it, ast.Call) and isinstance(it.func, ast.Name) and it.func.id in ("list", "tuple", "reversed") and it.args:
+            return yields(it.args[0], depth + 1)
+        if isinstance(it, ast.Name):
+            defs = [n for n in fi.local_nodes() if isinstance(n, ast.Assign) and len(n.targets) == 1 and _is_name(n.targets[0], it.id)]
+            return len(defs) == 1 and yields(defs[0].value, depth + 1)
+        if isinstance(it, ast.Call) and it.args and _selects_messages(it.args[0], fi):
+            f = it.func
+            if isinstance(f, ast.Call) and f.args and unparse(f.args[0]) == root:
+                return True
+            if isinstance(f, ast.Attribute) and f.attr in ("findall", "traverse") and unparse(f.value) == root:
+                return True
+        return False
+
+    for n in fi.local_nodes():
+        if isinstance(n, ast.For) and isinstance(n.target, ast.Name) and yields(n.iter):
+            v = n.target.id
+            if any(isinstance(c, ast.Call) and isinstance(c.func, ast.Attribute) and c.func.attr == "remove" and unparse(c.func.value) == f"{v}.parent" and c.args and _is_name(c.args[0], v) for c in ast.walk(n)):
+                out.append(n)
+    return out
+
+
+def _class_of_ctor(ctor: ast.Call | None) -> str | None:
+    d = dotted(ctor.func) if ctor is not None else None
+    return d.split(".")[-1] if d and d.startswith("nodes.") else None
+
+
+@rule("C14.R9")
+def r9_collector_read_elements(corpus: Corpus, rep: Report, tier: str):
+    rep.rule("C14.R9", "elements that docutils / Sphinx read as text (title, caption, rubric, term, field name, bibliographic field body, the text nodes of inline_text) are handed on without the message nodes rendered into them")
+    R = "C14.R9"
+    _CORPUS[0] = corpus
+    callers = _callers(corpus)
+    n_sites = 0
+    for fi in corpus.all_functions():
+        if fi.is_lambda or not fi.module.name.startswith("myst_parser.") or fi.module.name.endswith("._docs"):
+            continue
+        targets = _render_targets(fi)
+        if not targets:
+            continue
+        cfg = get_cfg(fi)
+        for w, name, ctor in targets:
+            cls = _class_of_ctor(ctor)
+            why = COLLECTOR_READ.get(cls or "")
+            kind = cls
+            if why is None and cls == "paragraph":
+                # a paragraph that becomes the body of a (bibliographic) field: docutils DocInfo / Sphinx MetadataCollector read it as text
+                if any(isinstance(c, ast.Call) and _class_of_ctor(c) == "field_body" and any(_is_name(x, name) for a in c.args for x in ast.walk(a)) for c in fi.local_nodes()):
+                    why, kind = "docutils DocInfo (authors, ...) and Sphinx's MetadataCollector read the body of a bibliographic field as text", "field body"
+            if why is None and any(isinstance(r, ast.Return) and r.value is not None and any(unparse(x) == f"{name}.children" for x in ast.walk(r.value)) for r in fi.local_nodes()):
+                why, kind = "the text nodes a directive gets from state.inline_text and names its element by (docutils' Inliner returns the messages separately)", "inline_text nodes"
+            if why is None:
+                continue
+            n_sites += 1
+            k = f"{fi.module.name}|{kind} with inline content"  # (not the function: the code may move into a helper)
+            site = fi.module.site(w)
+            loops = _removal_loops(fi, name)
+            # every path from the rendering to the end of the function takes the messages out
+            if any(not cfg.paths_avoiding(w, "EXIT", lambda x, lp=lp: x is lp) for lp in loops):
+                rep.ok(R, k, site, "the message nodes are taken out of it after the rendering, on every path")
+                continue
+            # or the function hands a container on and every caller takes them out of that
+            rets = [r for r in fi.local_nodes() if isinstance(r, ast.Return) and isinstance(r.value, ast.Name)]
+            cs = callers.get(fi.fq, [])
+            handed = bool(rets) and bool(cs)
+            for cfi, call in cs:
+                p = parent(call)
+                var = p.targets[0].id if isinstance(p, ast.Assign) and len(p.targets) == 1 and isinstance(p.targets[0], ast.Name) else None
+                if var is None or cfi.is_lambda:
+                    handed = False
+                    break
+                ccfg = get_cfg(cfi)
+                cl = _removal_loops(cfi, var)
+                if not any(not ccfg.paths_avoiding(p, "EXIT", lambda x, lp=lp: x is lp) for lp in cl):
+                    handed = False
+                    break
+            if handed:
+                rep.ok(R, k, site, f"every caller ({len(cs)}) takes the message nodes out of the returned container")
+            elif loops:
+                rep.violation(R, k, site, f"{fi.qualname}: inline content is rendered into the {kind} `{name}` and the message nodes are taken out only on some paths: on the others a warning's text stays inside it ({why}), so the text read from it differs between the suppressed and the unsuppressed run")
+            else:
+                rep.violation(R, k, site, f"{fi.qualname}: inline content is rendered into the {kind} `{name}` and the message nodes a warning puts there are never moved out ({why}): the text read from it differs between the suppressed and the unsuppressed run")
+    rep.expect_min(R, 4, "collector-read elements that inline content is rendered into (title, term, field body, inline_text nodes on the reviewed tree)")
+    # the nodes a directive returns: captions and titles built by directives (figure, code-block, table, figure-md, ...)
+    rd = corpus.func("mdit_to_docutils.base:DocutilsRenderer.run_directive")
+    k = f"{rd.fq}|captions and titles of directive output"
+    best = None
+    for lp in (n for n in rd.local_nodes() if isinstance(n, ast.For)):
+        # for T in findall(N)(P): ... for m in findall(T)(system_message): m.parent.remove(m)
+        it = lp.iter
+        while isinstance(it, ast.Call) and isinstance(it.func, ast.Name) and it.func.id in ("list", "tuple", "reversed") and it.args:
+            it = it.args[0]
+        if not (isinstance(it, ast.Call) and it.args and isinstance(lp.target, ast.Name)):
+            continue
+        pred = _class_predicate(it.args[0], rd)
+        classes = {(dotted(x) or "").split(".")[-1] for x in ast.walk(pred[0]) if isinstance(x, (ast.Attribute, ast.Name))} if pred is not None and pred[1] else ({(dotted(it.args[0]) or "").split(".")[-1]} if dotted(it.args[0]) else set())
+        inner = [l2 for l2 in _removal_loops(rd, lp.target.id) if any(a is lp for a in ancestors(l2))]
+        if inner and classes & {"caption", "title"}:
+            outer = next((a for a in ancestors(lp) if isinstance(a, ast.For)), None)
+            over_result = outer is not None and isinstance(outer.target, ast.Name) and isinstance(it.func, (ast.Call, ast.Attribute)) and outer.target.id in _names(it.func)
+            best = (lp, classes, over_result, outer)
+    if best is None:
+        rep.violation(R, k, rd.site(), "run_directive hands the nodes a directive returns on without taking the message nodes out of their captions / titles: Sphinx names a figure, code block or table by that text before it filters system messages")
+    else:
+        lp, classes, over_result, outer = best
+        missing = {"caption", "title"} - classes
+        if missing:
+            rep.violation(R, k, rd.module.site(lp), f"only {sorted(classes & {'caption', 'title'})} of a directive's output are cleared of message nodes, not {sorted(missing)}: Sphinx names the element by that text as well")
+        elif not over_result or unparse(outer.iter) != "result":
+            rep.error(R, f"run_directive: cannot relate the caption/title sweep to the list of nodes the directive returned (`{short(outer.iter, 30) if outer is not None else '?'}`)")
+        else:
+            rep.ok(R, k, rd.module.site(lp), "every caption and title below the returned nodes is cleared of message nodes")
+
+
+RULES = [r1_typed_emission, r2_untyped_closed_list, r3_no_member_loses_last_site, r4_suppression_confined, r5_return_value_unused, r6_tag_format, r7_documented_catalogue, r8_messages_are_not_content, r9_collector_read_elements]
 
 
 def mutants(corpus: Corpus):
@@ -3479,6 +3654,49 @@ def mutants(corpus: Corpus):
             out.append(("c14-title-cleaner-shape", "CleanDocumentTitle has no `default_priority = DocTitle.default_priority + k` / no loop over system_message"))
     else:
         out.append(("c14-title-cleaner-runs-before-doctitle", "transforms.py has no CleanDocumentTitle"))
+    # 6g. round-14 repairs: collector-read text elements are cleared of message nodes (revert + partial weakening each)
+    def _r9_pair(mid: str, mod, f: FunctionInfo, root: str, expect: str, gate: str) -> None:
+        loops = _removal_loops(f, root)
+        if not loops:
+            out.append((mid, f"{f.qualname} has no loop taking the system_message nodes out of `{root}`"))
+            return
+        lp = loops[0]
+        i_ = ind_of(mod, lp)
+        seg_ = ast.get_source_segment(mod.src, lp)
+        lines_ = seg_.splitlines()
+        body_ = "\n".join([i_ + "    " + lines_[0]] + [("    " + ln if ln.strip() else ln) for ln in lines_[1:]])
+        out.append(Mutant(f"c14-revert-{mid}", "C14.R9", mod.rel, splice(mod.src, lp, "pass"), expect=expect))
+        out.append(Mutant(f"c14-weaken-{mid}-only-on-one-path", "C14.R9", mod.rel, splice(mod.src, lp, f"if {gate}:\n{body_}"), expect=expect))
+        itx = lp.iter
+        while isinstance(itx, ast.Call) and isinstance(itx.func, ast.Name) and itx.func.id in ("list", "tuple", "reversed") and itx.args:
+            itx = itx.args[0]
+        if isinstance(itx, ast.Name):
+            dfs = [n for n in f.local_nodes() if isinstance(n, ast.Assign) and len(n.targets) == 1 and _is_name(n.targets[0], itx.id)]
+            itx = dfs[0].value if dfs else itx
+            while isinstance(itx, ast.Call) and isinstance(itx.func, ast.Name) and itx.func.id in ("list", "tuple", "reversed") and itx.args:
+                itx = itx.args[0]
+        if isinstance(itx, ast.Call):
+            out.append(Mutant(f"c14-weaken-{mid}-direct-children-only", "C14.R9", mod.rel, splice(mod.src, itx, f"[c_ for c_ in {root}.children if isinstance(c_, nodes.system_message)]"), expect=expect))
+
+    _r9_pair("b9e6269-title-keeps-warning-nodes", base, base.func("DocutilsRenderer.render_heading"), "title_node", "title with inline content", "self.sphinx_env is None")
+    _r9_pair("b0133e7-author-field-keeps-warning-nodes", base, base.func("DocutilsRenderer.render_front_matter"), "field_list", "field body with inline content", "self.sphinx_env is None")
+    mk = corpus.mod("mocking")
+    _r9_pair("7443243-inline-text-returns-warning-nodes", mk, mk.func("MockInliner.parse"), "container", "inline_text nodes with inline content", "lineno > 1")
+    f = base.func("DocutilsRenderer.run_directive")
+    sweep = None
+    for lp in (n for n in f.local_nodes() if isinstance(n, ast.For) and isinstance(n.target, ast.Name)):
+        if any(any(a is lp for a in ancestors(l2)) for l2 in _removal_loops(f, lp.target.id)):
+            sweep = lp
+    if sweep is not None:
+        outer = next((a for a in ancestors(sweep) if isinstance(a, ast.For)), sweep)
+        out.append(Mutant("c14-revert-9c54213-caption-keeps-warning-nodes", "C14.R9", base.rel, splice(base.src, outer, "pass"), expect="captions and titles of directive output"))
+        lam = find_node(f, lambda n: isinstance(n, ast.Lambda) and any(a is sweep for a in ancestors(n)) and "caption" in unparse(n) and "title" in unparse(n))
+        if lam is not None:
+            out.append(Mutant("c14-weaken-9c54213-titles-not-swept", "C14.R9", base.rel, splice(base.src, lam, f"lambda {lam.args.args[0].arg}: isinstance({lam.args.args[0].arg}, nodes.caption)"), expect="captions and titles of directive output"))
+        else:
+            out.append(("c14-weaken-9c54213-titles-not-swept", "the sweep does not select captions and titles by a lambda predicate"))
+    else:
+        out.append(("c14-revert-9c54213-caption-keeps-warning-nodes", "run_directive has no caption/title sweep"))
     # 6f. the class of the new known findings, at other sites
     f = base.func("DocutilsRenderer.render_heading") if "DocutilsRenderer.render_heading" in base.functions else None
     cu = find_node(base.func("DocutilsRenderer.generate_heading_target"), lambda n: isinstance(n, ast.Call) and dotted(n.func) == "clean_astext") if "DocutilsRenderer.generate_heading_target" in base.functions else None
